@@ -7,13 +7,13 @@ CHECK_DEADLOCK FALSE
 CONSTANTS
   U16MAX = 65535
   PROFILE = "debug"
-  ROWCAP = 50
-  BLOCKCAP = 100
-  MAXW = 3
-  MAXH = 3
+  ROWCAP = 3
+  BLOCKCAP = 6
+  MAXW = 2
+  MAXH = 2
   DEPTH = 1
   OOB = TRUE
   REORIENT = FALSE
-  BIGSET = TRUE
-  SAMPLE = 53
-  STREAMLEN = 0
+  BIGSET = FALSE
+  SAMPLE = 211
+  STREAMLEN = 4
